@@ -49,6 +49,10 @@ with stmt :=
 | SFun (name : string) (params : list (string * bool)) (body : list stmt) (decorators : list string)
 | SOther (k : string).
 
+(* a declaration statement (binds a name for the statements that follow it) *)
+Definition declares (s : stmt) : bool :=
+  match s with SLet _ _ _ | SFun _ _ _ _ => true | _ => false end.
+
 Definition program := list stmt.
 
 (* strings with non-printable bytes are dumped as byte lists *)
